@@ -212,6 +212,9 @@ func VerifyFunction(p *Program, cs *ContractSet, key string, ct *Contract, maxPa
 			}
 		}
 		for _, cl := range ct.Ensures {
+			if cl.Derived {
+				continue
+			}
 			tv, err := env.Translate(cl.E, "Bool")
 			if err != nil {
 				rep.Unsupported = fmt.Sprintf("ensures %s: %v", cl.Label, err)
@@ -241,6 +244,60 @@ func VerifyFunction(p *Program, cs *ContractSet, key string, ct *Contract, maxPa
 					ex.addObl("frame", "modifies-"+g, ct.Props, oc.st, fmt.Sprintf("(= %s %s)", t, st.ghost[g]), "", "ghost "+g+" is not in the modifies clause")
 				}
 			}
+		}
+	}
+	// derived postconditions: consequences of the requires and the other postconditions, proved once over an
+	// arbitrary final state (fresh ghosts and results) instead of once per path in the full path context
+	hasDerived := false
+	for _, cl := range ct.Ensures {
+		if cl.Derived {
+			hasDerived = true
+		}
+	}
+	if hasDerived {
+		st2 := st.clone()
+		if !ct.Pure {
+			for _, g := range ct.Modifies {
+				st2.ghost[g] = u.Fresh("final."+g, ex.ghostSort(g))
+			}
+		}
+		frX := &Frame{fn: fn, regs: fr0.regs, top: true, ct: ct}
+		env := ex.envFor(frX, st2)
+		for i := 0; i < fn.Signature.Results().Len(); i++ {
+			rt := fn.Signature.Results().At(i).Type()
+			rv := ex.freshResult(rt, "final."+rnames[i], st2)
+			env.vars[rnames[i]] = ex.valTV(rv, rt, st2)
+			if rv.P != nil {
+				env.vars[rnames[i]+"$isnil"] = TV{rv.P.NilT, "Bool"}
+			}
+		}
+		for _, cl := range ct.Ensures {
+			if cl.Derived {
+				continue
+			}
+			tv, err := env.Translate(cl.E, "Bool")
+			if err != nil {
+				rep.Unsupported = fmt.Sprintf("ensures %s: %v", cl.Label, err)
+				rep.Obls = nil
+				return
+			}
+			st2.assume(tv.T)
+		}
+		for _, cl := range ct.Ensures {
+			if !cl.Derived {
+				continue
+			}
+			tv, err := env.Translate(cl.E, "Bool")
+			if err != nil {
+				rep.Unsupported = fmt.Sprintf("ensures %s: %v", cl.Label, err)
+				rep.Obls = nil
+				return
+			}
+			props := cl.Props
+			if len(props) == 0 {
+				props = ct.Props
+			}
+			ex.addObl("post", cl.Label, props, st2, tv.T, fmt.Sprintf("%s:%d", cl.File, cl.Line), "derived from the requires and the other postconditions: "+cl.Text)
 		}
 	}
 	rep.Obls = ex.obls
